@@ -456,6 +456,33 @@ func RandomLog(r *rand.Rand, o LogOpts) Log {
 			n = 0
 		}
 		seen := map[string]bool{}
+		if len(o.Foods) >= 34 && n > 0 && !o.NoDupFoods && r.Intn(3) == 0 {
+			// a long day: more than 32 different foods first, then repeats of early, late and boundary ones
+			idx := r.Perm(len(o.Foods))
+			distinct := 33 + r.Intn(len(o.Foods)-32)
+			qty := func() Num {
+				if o.Exact {
+					return EQty(r)
+				}
+				return GNum(r)
+			}
+			names := map[string]bool{}
+			for _, k := range idx {
+				if len(names) >= distinct {
+					break
+				}
+				if !names[o.Foods[k]] {
+					names[o.Foods[k]] = true
+					day.Ents = append(day.Ents, Ent{o.Foods[k], qty()})
+				}
+			}
+			for _, pos := range []int{0, 31, 32, 33, len(day.Ents) - 1, r.Intn(len(day.Ents))} {
+				if pos < len(day.Ents) && r.Intn(3) > 0 {
+					day.Ents = append(day.Ents, Ent{day.Ents[pos].Name, qty()})
+				}
+			}
+			n = 0
+		}
 		for j := 0; j < n; j++ {
 			f := o.Foods[r.Intn(len(o.Foods))]
 			if j > 0 && !o.NoDupFoods && r.Intn(6) == 0 {
